@@ -9,13 +9,27 @@ LEAN_TARGETS = ['BareProofs.C01']
 DRIVER = 'drv_c01'
 DRIVER_ROOT = 'Drv.C01'
 GEN = ['Consts']
-THEOREMS = []
+THEOREMS = [
+    'C01.parseLines_render', 'C01.parse_rejects_ill_nested', 'C01.wellNested_of_parse_ok',
+    'C01.lower_exact', 'C01.lower_exact_body', 'C01.run_lowered_eq_runT', 'C01.execute₀_lowered',
+    'C01.parse_then_run', 'C01.while_retests_after_body', 'C01.while_continue_actual',
+]
 ASSUMPTIONS = [
     'expression evaluation is shared between the reference reading and the implementation (C01 is about control flow; operators are C03)',
     'numbers in generated programs are exactly representable, so the rational arithmetic of the model equals float arithmetic',
 ]
-LEVEL_TEXT = 'under construction'
-LEVEL_NOTE = 'under construction'
+LEVEL_TEXT = ('Theorems, for structured programs of any depth and size and any host: (T1) the line-at-a-time stack/counter algorithm of '
+              'parse_script computes exactly the recursive lowering and rejects exactly the ill-nested programs; (T2) the jump machine on the '
+              'lowered code equals the ticked structured big-step semantics as a function of fuel, counter, locals and state (return value, '
+              'every effect, statement count, divergence, budget exhaustion preserved), globally and for function bodies; composed as '
+              'parse_then_run. The Lean lowering (spec and mirror), machine and structured semantics are tied to parser.py/runtime.py by '
+              'differential correspondence on grammar-generated programs; an independent Python big-step reading of the source is the '
+              'oracle run against the implementation. Known finding F7 (continue inside while skips the condition test) is what the model '
+              'encodes (while_continue_actual) and what the oracle reports.')
+LEVEL_NOTE = ('Trusted: Lean kernel; harness (progen.py generator/renderer/reference interpreter, fw.py). Expression evaluation is shared by '
+              'both sides of the theorems (abstract host) and by oracle and implementation (C03 covers operators). The erasure of ticks and '
+              'hidden for-variables to the plain source reading (T3) is a separate module; until it is complete that step is carried by the '
+              'reference-interpreter oracle (translation-validation strength). Python recursion limit and memory are outside the model.')
 
 
 def known_f7(w):
@@ -25,8 +39,20 @@ def known_f7(w):
 FINDING_MATCHERS = {'F7': known_f7}
 
 
+F7_PROGRAM = [
+    {'k': 'expr', 'name': 'i', 'e': progen.num(0)},
+    {'k': 'while', 'c': progen.wf_binary('<', progen.var('i'), progen.num(3)), 'b': [
+        {'k': 'expr', 'name': 'i', 'e': progen.wf_binary('+', progen.var('i'), progen.num(1))},
+        {'k': 'if', 'c': progen.wf_binary('==', progen.var('i'), progen.num(3)), 't': [{'k': 'continue'}], 'else': None},
+        {'k': 'expr', 'name': None, 'e': progen.call('systemLog', progen.wf_binary('+', progen.string('i='), progen.var('i')))},
+    ]},
+    {'k': 'ret', 'e': progen.var('i')},
+]
+
+
 def gen_cases(ctx, n, stream):
     rng = ctx.rng(stream)
+    yield progen.assign_fids([dict(s) for s in F7_PROGRAM]), {}, {'while': 1, 'continue': 1, 'if': 1, 'corpus-F7': 1}
     for i in range(n):
         gen = progen.Gen(rng, max_depth=rng.choice([2, 3, 4, 5]))
         prog = gen.program()
